@@ -511,6 +511,11 @@ func (p *Process) onProcessEnd(state string) {
 	if p.readyProber != nil {
 		p.readyCancelFn()
 	}
+	// release everybody still waiting for this process to become ready, log-ready or started:
+	// it has ended and never will (a no-op for latches that were released before)
+	p.readyCancelFn()
+	p.readyLogCancelFn(fmt.Errorf("process %s ended", p.getName()))
+	p.runCancelFn()
 	p.setState(state)
 	p.updateProcState()
 
